@@ -61,6 +61,8 @@ type MapSpec struct {
 type Intrusion struct {
 	Mode *int `json:"mode,omitempty"`
 	Pwm  *int `json:"pwm,omitempty"`
+	// Unreadable (cmd fans): during the cycle that follows the tool answers "device busy" to the PWM query
+	Unreadable bool `json:"unreadable,omitempty"`
 }
 
 type MidIntrusion struct {
@@ -231,11 +233,15 @@ func buildWorld(ctx *Ctx, sc *Scenario) *World {
 		cfg.NeverStop = sc.Fan.NeverStop
 		cfg.MinPwm, cfg.StartPwm, cfg.MaxPwm = sc.Fan.CfgMin, sc.Fan.CfgStart, sc.Fan.CfgMax
 		if sc.Fan.ViaLoader {
+			// the RPM window too is what the file says (next to a different temperature window)
+			loaderWindow.Rpm, loaderWindow.Temp = sc.Window, sc.Window*7+13
 			loaded, lerr := fanConfigViaLoader(ctx, cfg)
+			loaderWindow.Rpm = 0
 			if lerr != nil {
 				panic("documented fan entry not loadable: " + lerr.Error())
 			}
 			cfg = loaded
+			configuration.CurrentConfig.RpmRollingWindowSize = loaderWindowLoaded.Rpm
 		}
 		fan, err := fans.NewFan(cfg)
 		if err != nil {
@@ -289,11 +295,15 @@ func buildWorld(ctx *Ctx, sc *Scenario) *World {
 			}
 		}
 		if sc.Fan.ViaLoader {
+			// the RPM window too is what the file says (next to a different temperature window)
+			loaderWindow.Rpm, loaderWindow.Temp = sc.Window, sc.Window*7+13
 			loaded, lerr := fanConfigViaLoader(ctx, cfg)
+			loaderWindow.Rpm = 0
 			if lerr != nil {
 				panic("documented fan entry not loadable: " + lerr.Error())
 			}
 			cfg = loaded
+			configuration.CurrentConfig.RpmRollingWindowSize = loaderWindowLoaded.Rpm
 		}
 		fan, err := fans.NewFan(cfg)
 		if err != nil {
@@ -496,6 +506,9 @@ func runScenario(ctx *Ctx, sc *Scenario, obs Observer) {
 		if st.Intrude != nil || st.Mid != nil {
 			intrusions++
 		}
+		if st.Intrude != nil && st.Intrude.Unreadable && w.cmdDir != "" {
+			_ = os.WriteFile(filepath.Join(w.cmdDir, "garble"), []byte("1"), 0644)
+		}
 		panicked, msg, stuck := GuardStuck(func() { rec.Err = w.Ctrl.UpdateFanSpeed() })
 		if panicked {
 			rec.Panic = msg
@@ -510,6 +523,9 @@ func runScenario(ctx *Ctx, sc *Scenario, obs Observer) {
 			}
 			ctx.Abort = true
 			panic(abortBatch{})
+		}
+		if st.Intrude != nil && st.Intrude.Unreadable && w.cmdDir != "" {
+			_ = os.Remove(filepath.Join(w.cmdDir, "garble"))
 		}
 		d.Rules = nil
 		mid = nil
